@@ -12,7 +12,8 @@ _X = dict(p_opt_existing=.4, p_multi_choice=.3)
 PROFILES = [
     ('sel', .18, dict(p_incompat=.4)),
     ('sel_con', .12, dict(p_incompat=.3, p_constraint=1.0, n_steps=(5, 12))),
-    ('sel_dv', .12, dict(p_incompat=.3, n_dv=(1, 3), p_dv_link=.4)),
+    ('sel_dv', .08, dict(p_incompat=.3, n_dv=(1, 3), p_dv_link=.4)),
+    ('sel_dv_opt', .04, dict(p_incompat=.3, n_dv=(2, 4), p_dv_option=.5, p_dv_cond=.8)),
     ('conn', .2, dict(p_incompat=.25, n_conn=(1, 1), n_steps=(2, 7), max_sel=3, max_opts=3)),
     ('conn2', .05, dict(p_incompat=.2, n_conn=(2, 2), n_steps=(2, 6), max_sel=2, max_opts=3, p_grp=.2)),
     ('conn3', .04, dict(p_incompat=.1, n_conn=(3, 3), n_steps=(1, 3), max_sel=1, max_opts=2, p_grp=0., p_excl=.1,
@@ -269,6 +270,11 @@ def run_encoder(prop, case, enc, emit, col, rk, rk_dv, rnd, cap):
                 if act and nm in vals and not _close(vals[nm], v):
                     emit('vector_instance_mismatch_dv', {'x': x, 'x_corrected': x1, 'node': nm,
                                                          'stored': vals[nm], 'vector': v})
+                elif not act and nm in obs['nodes']:
+                    # the node is part of the instance, so the vector has to describe its value
+                    emit('vector_instance_mismatch_dv', {'x': x, 'x_corrected': x1, 'node': nm,
+                                                         'stored': vals.get(nm), 'vector': 'inactive'},
+                         where={'case': 'present_but_inactive'})
         full_key = S.canon([key, obs['dv']])
         prev = keys_seen.setdefault(full_key, x1)
         if prev != x1:
@@ -598,6 +604,30 @@ def worker(task, col):
     for i in range(task['lo'], task['hi']):
         name, sp = case_spec(prop, task['seed'], i)
         n0 = len(col.violations)
+        if prop in ('C07', 'C03') and sp.get('conn') and i % 2 == 0:
+            # "every registered connection encoder": the same case with selection reduced to one registered encoder
+            from ..core import Collector
+            tmp = Collector()
+            try:
+                # (the selector's own size guards are bypassed by forcing a family: bound the attempt)
+                with common.only_encoder(task['seed'] * 7 + i // 2) as oe, common.time_limit(25):
+                    check_case(prop, sp, tmp, name + '_forced', cap=cap)
+                ok_forced = not any(v['symptom'] in ('construct_exception', 'fast_construct_exception')
+                                    for v in tmp.violations)
+            except (Exception, common.HarnessTimeout):  # noqa  (candidate cannot encode these settings / too slow)
+                ok_forced = False
+            if ok_forced and tmp.evaluations:
+                col.count('forced_encoder_cases')
+                col.count('forced_family_' + oe.family)
+                for v in tmp.violations:
+                    v.setdefault('where', {})['forced_encoder'] = True
+                col.violations.extend(tmp.violations)
+                for k_, v_ in tmp.counters.items():
+                    col.count(k_, v_)
+                col.evaluations += tmp.evaluations
+                col.nontrivial |= tmp.nontrivial
+                continue
+            col.count('forced_encoder_fallback')
         common.guard(col, check_case, prop, sp, col, name, cap=cap)
         if sp.get('conn') and len(col.violations) > n0:
             common.attribute_to_pattern_encoders(col, n0, lambda c, sp=sp: check_case(prop, sp, c, 'rerun', cap=cap))
